@@ -44,3 +44,16 @@ Parametricity Recursive coef_mean.
 Parametricity Recursive coef_center.
 Parametricity Recursive coef_gram.
 Parametricity Recursive to_long.
+
+(* covariance computed from the coefficients (BasisFunctionalData.covariance: centred coefficients,
+   C^T C / n) and its evaluation at a pair of grid points s, t *)
+Section CovCoef.
+  Context {T : Type} (o : ops T).
+  Definition cov_coef (K : nat) (C : list (list T)) : list (list T) :=
+    let Ct := transpose K (center_rows o K C) in
+    map (fun ck => map (fun cl => odiv o (dot o ck cl) (oofnat o (length C))) Ct) Ct.
+  Definition basis_at (Phi : list (list T)) (s : nat) : list T := map (fun phi => nth s phi (o0 o)) Phi.
+  Definition cov_coef_at (K : nat) (Phi C : list (list T)) (s t : nat) : T :=
+    dot o (basis_at Phi s) (mv o (cov_coef K C) (basis_at Phi t)).
+End CovCoef.
+Parametricity Recursive cov_coef_at.
